@@ -170,6 +170,36 @@ class C02(Check):
                     continue
                 out.stats["rebuilt_through_public_constructor"] += 1
                 m.message("%s (rebuilt through the public constructor from a %s)" % (k, kind), k, new, docs=False)
+                # ... and with the constants placed between the fields: the layout only depends on the fields and their order
+                try:
+                    mixed, _a2 = rebuild(t, "list", interleave=True)
+                    def lite(x):
+                        parts = [x.request_type, x.response_type] if isinstance(x, pydsdl.ServiceType) else [x]
+                        return [[type(p0).__name__, p0.extent, realcanon.bls_cheap(p0.bit_length_set), p0.alignment_requirement, [f.name for f in p0.fields], sorted(c.name for c in p0.constants),
+                                 p0.inner_type.tag_field_type.bit_length if isinstance(p0.inner_type, pydsdl.UnionType) else None,
+                                 [[f.name, off.min, off.max, sorted(off % 16)] for f, off in p0.iterate_fields_with_offsets()]] for p0 in parts]
+                    if lite(mixed) != lite(t):
+                        out.fail("C02.lenset", "%s: built through the public constructor with its constants placed between its fields, the type's layout is %s; with the fields first it is %s" % (k, lite(mixed), lite(t)), "ctor-interleaved")
+                except Exception as ex:
+                    from .base import raised_inside_sut
+                    if not raised_inside_sut(ex):
+                        raise
+                    out.fail("C02.lenset", "%s: the public constructor raised %s for the type's own attributes with constants between the fields" % (k, type(ex).__name__), "ctor-interleaved-raised")
+            # types that only the constructors can build: arrays of arrays
+            from ..model import blsref as B2
+            for n1, n2, w0 in ((3, 2, 8), (2, 3, 5), (1, 4, 16), (4, 1, 1)):
+                el = pydsdl.UnsignedIntegerType(w0, pydsdl.PrimitiveType.CastMode.TRUNCATED) if w0 > 1 else pydsdl.BooleanType()
+                leaf = B2.Leaf({w0})
+                fa, va = pydsdl.FixedLengthArrayType(el, n1), pydsdl.VariableLengthArrayType(el, n1)
+                nfa, nva = B2.Rep(leaf, n1), B2.Cat(B2.Leaf({T.prefix_width(n1)}), B2.Rng(leaf, n1))
+                for real_t, want_node in ((pydsdl.VariableLengthArrayType(fa, n2), B2.Cat(B2.Leaf({T.prefix_width(n2)}), B2.Rng(nfa, n2))), (pydsdl.FixedLengthArrayType(fa, n2), B2.Rep(nfa, n2)),
+                                     (pydsdl.FixedLengthArrayType(va, n2), B2.Rep(nva, n2)), (pydsdl.VariableLengthArrayType(va, n2), B2.Cat(B2.Leaf({T.prefix_width(n2)}), B2.Rng(nva, n2)))):
+                    got_set = set(real_t.bit_length_set)
+                    if got_set != want_node.expand():
+                        out.fail("C02.lenset", "%s (built through the public constructors): bit length set %s, Specification %s" % (real_t, sorted(got_set)[:12], sorted(want_node.expand())[:12]), "api-nested-array")
+                    out.stats["api_nested_arrays"] += 1
+            for _once in [0]:
+                pass
             for b in m.bad[:5]:
                 oracle = "C02.prefix" if ("prefix" in b or "tag width" in b or "header" in b) else "C02.align" if "alignment" in b else "C02.extent" if "extent" in b else "C02.lenset"
                 out.fail(oracle, b, oracle.split(".")[1] + ":" + b.split(": ", 1)[-1].split(" ")[0])
